@@ -99,6 +99,36 @@ func (c *conditionLocker) waitIfLock() {
 	c.lockMu.Unlock()
 }
 
+// waitIfLockContext is waitIfLock for a caller that has a context and a
+// timeout of its own: it gives up when the context ends or the timeout has
+// passed.
+func (c *conditionLocker) waitIfLockContext(ctx context.Context, timeout time.Duration) error {
+	c.lockMu.Lock()
+	locked := c.bLock
+	c.lockMu.Unlock()
+	if !locked {
+		return nil
+	}
+
+	unlocked := make(chan struct{})
+	go func() {
+		c.waitIfLock()
+		close(unlocked)
+	}()
+
+	timer := time.NewTimer(timeout)
+	defer timer.Stop()
+
+	select {
+	case <-unlocked:
+		return nil
+	case <-ctx.Done():
+		return ctx.Err()
+	case <-timer.C:
+		return ua.StatusBadTimeout
+	}
+}
+
 // pendingCounter counts the requests that are being written to the connection.
 // A token renewal waits for it to drop to zero. Unlike a sync.WaitGroup it may
 // be incremented from zero while another goroutine is still waiting, which
@@ -1191,7 +1221,11 @@ func (s *SecureChannel) SendRequest(ctx context.Context, req ua.Request, authTok
 }
 
 func (s *SecureChannel) SendRequestWithTimeout(ctx context.Context, req ua.Request, authToken *ua.NodeID, timeout time.Duration, h ResponseHandler) error {
-	s.reqLocker.waitIfLock()
+	// requests wait while a token renewal is in flight, but not longer than
+	// their own timeout and context allow
+	if err := s.reqLocker.waitIfLockContext(ctx, timeout+timeoutLeniency); err != nil {
+		return err
+	}
 	active, err := s.getActiveChannelInstance()
 	if err != nil {
 		return err
